@@ -10,7 +10,13 @@ package main
 //   c19.parse   prev settings + up to 4 payloads -> settings after each parseSettingsFromRaw
 //   c19.seq     a real Server: Initialize / Initialized / DidChangeConfiguration with a client
 //               stub answering workspace/configuration under a chosen schedule; settings (and
-//               optionally observable behaviour) after every event
+//               optionally observable behaviour) after every event.  Every request of the
+//               behaviour probes goes through srv.FeatureGate(next) — the middleware that
+//               cmd/hledger-lsp/main.go chains in front of the dispatcher — with next = the
+//               direct call of the Server method
+//   c19.wire    the BUILT binary over stdio: settings pushed with didChangeConfiguration (the
+//               wire client announces no workspace.configuration), then one request per
+//               switchable feature; which of them are answered with null
 //
 // Payloads travel twice: "txt" is the JSON text (what a client would send; replay input) and
 // "p" is the value the Go code received after decoding, in a tagged form with every number
@@ -40,6 +46,7 @@ import (
 	"unicode"
 
 	segjson "github.com/segmentio/encoding/json"
+	"go.lsp.dev/jsonrpc2"
 	"go.lsp.dev/protocol"
 
 	"github.com/juev/hledger-lsp/internal/server"
@@ -60,6 +67,14 @@ func init() {
 	}
 	replayers["c19.seq"] = func(c *Ctx, m map[string]any) map[string]any {
 		return c19SeqCase(c, c19Arr(m["events"]))
+	}
+	replayers["c19.wire"] = func(c *Ctx, m map[string]any) map[string]any {
+		var txts []string
+		for _, x := range c19Arr(m["txts"]) {
+			s, _ := x.(string)
+			txts = append(txts, s)
+		}
+		return c19WireCase(txts)
 	}
 }
 
@@ -850,6 +865,8 @@ func genC19(c *Ctx) {
 	c19Exhaustive(c)
 	genC19Seq(c)
 	genC19Targeted(c)
+	genC19Switches(c)
+	genC19Wire(c)
 }
 
 func c19Exhaustive(c *Ctx) {
@@ -1216,6 +1233,135 @@ const c19InlineDoc = `2024-01-01 shop
 
 `
 
+// viaGate sends one request the way the binary serves it: through Server.FeatureGate, the
+// handler behind the gate being the direct call of the Server method.  Returns what the
+// client receives and whether the request reached the handler.
+func (ru *c19Run) viaGate(method string, call func() (any, error)) (result any, err error, reached bool) {
+	req, cerr := jsonrpc2.NewCall(jsonrpc2.NewNumberID(1), method, nil)
+	if cerr != nil {
+		panic(cerr)
+	}
+	next := func(ctx context.Context, reply jsonrpc2.Replier, _ jsonrpc2.Request) error {
+		reached = true
+		r, e := call()
+		return reply(ctx, r, e)
+	}
+	_ = ru.srv.FeatureGate(next)(context.Background(), func(_ context.Context, r any, e error) error {
+		result, err = r, e
+		return nil
+	}, req)
+	return
+}
+
+// c19IsNil: nil, or a typed nil pointer / slice / map inside the interface.
+func c19IsNil(v any) bool {
+	if v == nil {
+		return true
+	}
+	rv := reflect.ValueOf(v)
+	switch rv.Kind() {
+	case reflect.Ptr, reflect.Map, reflect.Slice, reflect.Interface:
+		return rv.IsNil()
+	}
+	return false
+}
+
+// c19GateWord classifies what came back: "null" = the gate's own reply, nothing reached the
+// handler; "answered" / "empty" = the handler ran and returned something / nothing;
+// "passed" (code actions: the list depends on a hledger executable) = the handler ran.
+func c19GateWord(result any, err error, reached, lookInside bool, nonEmpty func(any) bool) string {
+	switch {
+	case err != nil:
+		return "error"
+	case !reached && c19IsNil(result):
+		return "null"
+	case !reached:
+		return "blocked-with-answer"
+	case !lookInside:
+		return "passed"
+	case !c19IsNil(result) && nonEmpty(result):
+		return "answered"
+	}
+	return "empty"
+}
+
+const c19LinksDoc = "include other.journal\n\n2024-01-01 shop\n    a  1 USD\n    b\n"
+
+// gateProbes: one request per row of the gate's table, and two requests no switch governs.
+func (ru *c19Run) gateProbes() map[string]any {
+	ctx := context.Background()
+	srv := ru.srv
+	u := protocol.DocumentURI("file:///c19/completion.journal")
+	srv.StoreDocument(u, c19CompletionDoc)
+	ul := protocol.DocumentURI("file:///c19/links.journal")
+	srv.StoreDocument(ul, c19LinksDoc)
+	td := protocol.TextDocumentIdentifier{URI: u}
+	pos := protocol.TextDocumentPositionParams{TextDocument: td, Position: protocol.Position{Line: 10, Character: 8}}
+	whole := protocol.Range{Start: protocol.Position{Line: 0, Character: 0}, End: protocol.Position{Line: 18, Character: 0}}
+	sliceLen := func(v any) bool { return reflect.ValueOf(v).Len() > 0 }
+	tokens := func(v any) bool {
+		switch t := v.(type) {
+		case *protocol.SemanticTokens:
+			return len(t.Data) > 0
+		case *protocol.SemanticTokensDelta:
+			return true
+		}
+		return false
+	}
+	type probe struct {
+		method     string
+		lookInside bool
+		call       func() (any, error)
+		nonEmpty   func(any) bool
+	}
+	probes := []probe{
+		{protocol.MethodTextDocumentHover, true, func() (any, error) { return srv.Hover(ctx, &protocol.HoverParams{TextDocumentPositionParams: pos}) },
+			func(v any) bool { return v.(*protocol.Hover).Contents.Value != "" }},
+		{protocol.MethodTextDocumentCompletion, true, func() (any, error) {
+			lines := strings.Split(c19CompletionDoc, "\n")
+			last := len(lines) - 1
+			return srv.Completion(ctx, &protocol.CompletionParams{TextDocumentPositionParams: protocol.TextDocumentPositionParams{
+				TextDocument: td, Position: protocol.Position{Line: uint32(last), Character: uint32(len(lines[last]))}}})
+		}, func(v any) bool { return len(v.(*protocol.CompletionList).Items) > 0 }},
+		{protocol.MethodTextDocumentFormatting, true, func() (any, error) {
+			return srv.Format(ctx, &protocol.DocumentFormattingParams{TextDocument: td})
+		}, sliceLen},
+		{protocol.MethodSemanticTokensFull, true, func() (any, error) {
+			return srv.SemanticTokensFull(ctx, &protocol.SemanticTokensParams{TextDocument: td})
+		}, tokens},
+		{protocol.MethodSemanticTokensFullDelta, true, func() (any, error) {
+			return srv.SemanticTokensFullDelta(ctx, &protocol.SemanticTokensDeltaParams{TextDocument: td, PreviousResultID: "none"})
+		}, tokens},
+		{protocol.MethodSemanticTokensRange, true, func() (any, error) {
+			return srv.SemanticTokensRange(ctx, &protocol.SemanticTokensRangeParams{TextDocument: td, Range: whole})
+		}, tokens},
+		{protocol.MethodTextDocumentCodeAction, false, func() (any, error) {
+			return srv.CodeAction(ctx, &protocol.CodeActionParams{TextDocument: td, Range: whole})
+		}, nil},
+		{protocol.MethodTextDocumentFoldingRange, true, func() (any, error) {
+			return srv.FoldingRanges(ctx, &protocol.FoldingRangeParams{TextDocumentPositionParams: protocol.TextDocumentPositionParams{TextDocument: td}})
+		}, sliceLen},
+		{protocol.MethodTextDocumentDocumentLink, true, func() (any, error) {
+			return srv.DocumentLink(ctx, &protocol.DocumentLinkParams{TextDocument: protocol.TextDocumentIdentifier{URI: ul}})
+		}, sliceLen},
+		{protocol.MethodWorkspaceSymbol, true, func() (any, error) {
+			return srv.WorkspaceSymbol(ctx, &protocol.WorkspaceSymbolParams{Query: "exp"})
+		}, sliceLen},
+		{protocol.MethodTextDocumentDefinition, true, func() (any, error) {
+			return srv.Definition(ctx, &protocol.DefinitionParams{TextDocumentPositionParams: pos})
+		}, sliceLen},
+		{protocol.MethodTextDocumentDocumentSymbol, true, func() (any, error) {
+			return srv.DocumentSymbol(ctx, &protocol.DocumentSymbolParams{TextDocument: td})
+		}, sliceLen},
+	}
+	out := map[string]any{}
+	for _, p := range probes {
+		res, err, reached := ru.viaGate(p.method, p.call)
+		out[p.method] = c19GateWord(res, err, reached, p.lookInside, p.nonEmpty)
+	}
+	return out
+}
+
 func (ru *c19Run) observe(c *Ctx, reuse bool) map[string]any {
 	ctx := context.Background()
 	obs := map[string]any{}
@@ -1226,11 +1372,21 @@ func (ru *c19Run) observe(c *Ctx, reuse bool) map[string]any {
 		srv.StoreDocument(u, c19CompletionDoc)
 		lines := strings.Split(c19CompletionDoc, "\n")
 		last := len(lines) - 1
-		res, err := srv.Completion(ctx, &protocol.CompletionParams{
-			TextDocumentPositionParams: protocol.TextDocumentPositionParams{
-				TextDocument: protocol.TextDocumentIdentifier{URI: u},
-				Position:     protocol.Position{Line: uint32(last), Character: uint32(len(lines[last]))},
-			}})
+		// a null reply (the gate's, when completion is switched off) is an empty list
+		completion := func(ch int) (*protocol.CompletionList, error) {
+			r, err, _ := ru.viaGate(protocol.MethodTextDocumentCompletion, func() (any, error) {
+				return srv.Completion(ctx, &protocol.CompletionParams{
+					TextDocumentPositionParams: protocol.TextDocumentPositionParams{
+						TextDocument: protocol.TextDocumentIdentifier{URI: u},
+						Position:     protocol.Position{Line: uint32(last), Character: uint32(ch)},
+					}})
+			})
+			if l, ok := r.(*protocol.CompletionList); ok && l != nil {
+				return l, err
+			}
+			return &protocol.CompletionList{}, err
+		}
+		res, err := completion(len(lines[last]))
 		n, fuzzyOnly, counts := -1, false, false
 		if err == nil && res != nil {
 			n = len(res.Items)
@@ -1249,11 +1405,7 @@ func (ru *c19Run) observe(c *Ctx, reuse bool) map[string]any {
 		// second probe: a query no label starts with
 		doc2 := strings.TrimSuffix(c19CompletionDoc, "exp") + "xp"
 		srv.StoreDocument(u, doc2)
-		res2, err := srv.Completion(ctx, &protocol.CompletionParams{
-			TextDocumentPositionParams: protocol.TextDocumentPositionParams{
-				TextDocument: protocol.TextDocumentIdentifier{URI: u},
-				Position:     protocol.Position{Line: uint32(last), Character: uint32(len(lines[last]) - 1)},
-			}})
+		res2, err := completion(len(lines[last]) - 1)
 		n2 := -1
 		if err == nil && res2 != nil {
 			n2 = len(res2.Items)
@@ -1281,7 +1433,11 @@ func (ru *c19Run) observe(c *Ctx, reuse bool) map[string]any {
 						panicked = true
 					}
 				}()
-				edits, err := srv.Format(ctx, &protocol.DocumentFormattingParams{TextDocument: protocol.TextDocumentIdentifier{URI: u}})
+				// a null reply (the gate's, when formatting is switched off): no edits
+				r, err, _ := ru.viaGate(protocol.MethodTextDocumentFormatting, func() (any, error) {
+					return srv.Format(ctx, &protocol.DocumentFormattingParams{TextDocument: protocol.TextDocumentIdentifier{URI: u}})
+				})
+				edits, _ := r.([]protocol.TextEdit)
 				if err == nil {
 					text := c19ApplyEdits(c19FormatDoc, edits)
 					for _, ln := range strings.Split(text, "\n") {
@@ -1300,14 +1456,10 @@ func (ru *c19Run) observe(c *Ctx, reuse bool) map[string]any {
 			}
 		}
 	}
-	// feature switches after initialisation: hover (handler never consults the settings) and
-	// inline completion (handler does)
+	// feature switches: the eight enforced by the gate, one request per row of its table
+	// (whatever Initialize advertised), and inline completion (read by its handler)
 	{
-		u := protocol.DocumentURI("file:///c19/completion.journal")
-		srv.StoreDocument(u, c19CompletionDoc)
-		h, err := srv.Hover(ctx, &protocol.HoverParams{TextDocumentPositionParams: protocol.TextDocumentPositionParams{
-			TextDocument: protocol.TextDocumentIdentifier{URI: u}, Position: protocol.Position{Line: 10, Character: 8}}})
-		obs["hoverAnswers"] = err == nil && h != nil
+		obs["gate"] = ru.gateProbes()
 		cur := srv.VerifGetSettings()
 		wi := int64(cur.Formatting.IndentSize)
 		if wi > 1000 && wi < 1<<50 {
@@ -1730,6 +1882,230 @@ func genC19Targeted(c *Ctx) {
 		}
 		c.Count(fmt.Sprintf("seq.targeted-burst-%d", n))
 		c.Emit("c19.seq", c19SeqCase(c, events))
+	}
+}
+
+// genC19Switches: the feature switches.  Initialisation (some features possibly switched off
+// already, hence not advertised), then changes that switch features off and on — pulled,
+// pushed, overlapping — with the request probes after EVERY configuration event.
+func genC19Switches(c *Ctx) {
+	r := c.R
+	keys := []string{"hover", "completion", "formatting", "diagnostics", "semanticTokens", "codeActions",
+		"foldingRanges", "documentLinks", "workspaceSymbol", "inlineCompletion"}
+	flags := func() any {
+		m := map[string]any{}
+		n := 1 + r.IntN(3)
+		if r.IntN(8) == 0 {
+			n = len(keys)
+		}
+		for k := 0; k < n; k++ {
+			var v any = r.IntN(3) == 0
+			switch r.IntN(8) {
+			case 0:
+				v = pick(r, []string{"false", " FALSE ", "true", "True", "\tfalse\n"})
+			case 1:
+				v = pick(r, []any{nil, c19num("0"), c19num("1"), "no", []any{false}}) // ill-typed: no effect
+			}
+			m[pick(r, keys)] = v
+		}
+		switch r.IntN(3) {
+		case 0:
+			return map[string]any{"features": m}
+		case 1:
+			d := map[string]any{}
+			for k, v := range m {
+				d["features."+k] = v
+			}
+			return d
+		}
+		d := map[string]any{"features": m}
+		if r.IntN(2) == 0 {
+			d["features."+pick(r, keys)] = r.IntN(2) == 0
+		}
+		return d
+	}
+	for i := 0; i < c.N(150, 4000); i++ {
+		var cfg any = true
+		switch r.IntN(4) {
+		case 0:
+			cfg = false
+		case 1:
+			if r.IntN(2) == 0 {
+				cfg = nil
+			}
+		}
+		first := map[string]any{"k": "init", "cfg": cfg, "txt": "null"}
+		if r.IntN(2) == 0 {
+			first["txt"] = c19Text(flags())
+		}
+		events := []any{first, map[string]any{"k": "observe"}}
+		pulls := cfg == true
+		if r.IntN(3) == 0 {
+			events = append(events, map[string]any{"k": "initialized"})
+			if pulls {
+				events = append(events, map[string]any{"k": "answer", "task": 0, "txts": []any{"null"}})
+			}
+		}
+		for j := 0; j < 1+r.IntN(4); j++ {
+			if pulls && r.IntN(4) == 0 {
+				// two changes in flight, answered in either order; probes in between
+				p1, p2 := flags(), flags()
+				push1, pull1 := c19PushPull(r, p1)
+				push2, pull2 := c19PushPull(r, p2)
+				events = append(events, map[string]any{"k": "change", "txt": push1}, map[string]any{"k": "change", "txt": push2})
+				a1 := map[string]any{"k": "answer", "task": 0, "txts": []any{pull1}}
+				a2 := map[string]any{"k": "answer", "task": 0, "txts": []any{pull2}}
+				if r.IntN(2) == 0 {
+					a2["task"] = 1
+					events = append(events, a2, map[string]any{"k": "observe"}, a1)
+				} else {
+					events = append(events, a1, map[string]any{"k": "observe"}, a2)
+				}
+				events = append(events, map[string]any{"k": "observe"})
+				c.Count("seq.switches-overlap")
+				continue
+			}
+			pushed, pulled := c19PushPull(r, flags())
+			events = append(events, map[string]any{"k": "change", "txt": pushed})
+			if pulls {
+				events = append(events, map[string]any{"k": "answer", "task": 0, "txts": []any{pulled}})
+			}
+			events = append(events, map[string]any{"k": "observe", "reuse": r.IntN(2) == 0})
+		}
+		c.Count("seq.switches")
+		c.Emit("c19.seq", c19SeqCase(c, events))
+	}
+}
+
+// ---------------------------------------------------------------- the built binary
+
+// c19WireMethods: the requests probed over the wire.  textDocument/codeAction is left out:
+// cmd/hledger-lsp's dispatcher answers it with null itself, switched on or not.
+var c19WireMethods = []string{
+	protocol.MethodTextDocumentHover, protocol.MethodTextDocumentCompletion, protocol.MethodTextDocumentFormatting,
+	protocol.MethodSemanticTokensFull, protocol.MethodSemanticTokensFullDelta, protocol.MethodSemanticTokensRange,
+	protocol.MethodTextDocumentFoldingRange, protocol.MethodTextDocumentDocumentLink, protocol.MethodWorkspaceSymbol,
+	protocol.MethodTextDocumentDefinition, protocol.MethodTextDocumentDocumentSymbol,
+}
+
+func c19WireNonEmpty(v any) bool {
+	switch t := v.(type) {
+	case nil:
+		return false
+	case []any:
+		return len(t) > 0
+	case map[string]any:
+		for _, k := range []string{"items", "data", "contents", "edits"} {
+			if x, ok := t[k]; ok {
+				return c19WireNonEmpty(x)
+			}
+		}
+		return len(t) > 0
+	case string:
+		return t != ""
+	}
+	return true
+}
+
+// c19WireCase: a fresh process (initialize with capabilities {} and no options, so the server
+// cannot ask and applies pushed settings), two open documents; per step an optional
+// workspace/didChangeConfiguration {"settings": <txt>} ("" = none) and then every probe.
+func c19WireCase(txts []string) map[string]any {
+	w, err := startWire()
+	if err != nil {
+		panic("wire mode: " + err.Error())
+	}
+	defer w.close()
+	u, ul := "file:///c19/completion.journal", "file:///c19/links.journal"
+	w.notify("textDocument/didOpen", map[string]any{"textDocument": map[string]any{"uri": u, "languageId": "hledger", "version": 1, "text": c19CompletionDoc}})
+	w.notify("textDocument/didOpen", map[string]any{"textDocument": map[string]any{"uri": ul, "languageId": "hledger", "version": 1, "text": c19LinksDoc}})
+	td := map[string]any{"uri": u}
+	lines := strings.Split(c19CompletionDoc, "\n")
+	last := len(lines) - 1
+	whole := map[string]any{"start": map[string]any{"line": 0, "character": 0}, "end": map[string]any{"line": 18, "character": 0}}
+	params := map[string]any{
+		protocol.MethodTextDocumentHover:          map[string]any{"textDocument": td, "position": map[string]any{"line": 10, "character": 8}},
+		protocol.MethodTextDocumentCompletion:     map[string]any{"textDocument": td, "position": map[string]any{"line": last, "character": len(lines[last])}},
+		protocol.MethodTextDocumentFormatting:     map[string]any{"textDocument": td, "options": map[string]any{"tabSize": 4, "insertSpaces": true}},
+		protocol.MethodSemanticTokensFull:         map[string]any{"textDocument": td},
+		protocol.MethodSemanticTokensFullDelta:    map[string]any{"textDocument": td, "previousResultId": "none"},
+		protocol.MethodSemanticTokensRange:        map[string]any{"textDocument": td, "range": whole},
+		protocol.MethodTextDocumentFoldingRange:   map[string]any{"textDocument": td},
+		protocol.MethodTextDocumentDocumentLink:   map[string]any{"textDocument": map[string]any{"uri": ul}},
+		protocol.MethodWorkspaceSymbol:            map[string]any{"query": "exp"},
+		protocol.MethodTextDocumentDefinition:     map[string]any{"textDocument": td, "position": map[string]any{"line": 10, "character": 8}},
+		protocol.MethodTextDocumentDocumentSymbol: map[string]any{"textDocument": td},
+	}
+	var steps, impl []any
+	for _, txt := range txts {
+		if txt == "" {
+			steps = append(steps, nil)
+		} else {
+			v, err := c19Decode(txt)
+			if err != nil {
+				panic("c19.wire: payload does not decode: " + txt)
+			}
+			steps = append(steps, c19Tag(v))
+			w.notify("workspace/didChangeConfiguration", map[string]any{"settings": stdjson.RawMessage(txt)})
+		}
+		gate := map[string]any{}
+		for _, m := range c19WireMethods {
+			res, err := w.request(m, params[m])
+			switch {
+			case err != nil:
+				gate[m] = "error"
+			case res == nil:
+				gate[m] = "null"
+			case c19WireNonEmpty(res):
+				gate[m] = "answered"
+			default:
+				gate[m] = "empty"
+			}
+		}
+		impl = append(impl, map[string]any{"gate": gate})
+	}
+	return map[string]any{"txts": txts, "steps": steps, "impl": impl}
+}
+
+// genC19Wire: a few processes; in each the switches are pushed off and on again in every key
+// form, one or several at a time.
+func genC19Wire(c *Ctx) {
+	r := c.R
+	keys := []string{"hover", "completion", "formatting", "semanticTokens", "foldingRanges", "documentLinks", "workspaceSymbol", "codeActions", "diagnostics", "inlineCompletion"}
+	for i := 0; i < c.N(4, 40); i++ {
+		txts := []string{""}
+		for j := 0; j < 3+r.IntN(4); j++ {
+			m := map[string]any{}
+			for k := 0; k < 1+r.IntN(3); k++ {
+				var v any = r.IntN(3) == 0
+				if r.IntN(4) == 0 {
+					v = pick(r, []string{"false", " FALSE ", "true", "True"})
+				}
+				m[pick(r, keys)] = v
+			}
+			var p any
+			switch r.IntN(4) {
+			case 0:
+				p = map[string]any{"hledger": map[string]any{"features": m}}
+			case 1:
+				p = map[string]any{"features": m}
+			case 2:
+				d := map[string]any{}
+				for k, v := range m {
+					d["features."+k] = v
+				}
+				p = map[string]any{"hledger": d}
+			default:
+				d := map[string]any{}
+				for k, v := range m {
+					d["features."+k] = v
+				}
+				p = d
+			}
+			txts = append(txts, c19Text(p))
+		}
+		c.Count("wire.case")
+		c.Emit("c19.wire", c19WireCase(txts))
 	}
 }
 
